@@ -66,6 +66,7 @@ func driverMain(args []string) {
 	seed := fs.Uint64("seed", 0, "")
 	binsArg := fs.String("bins", "", "variant=path,...")
 	sitesArg := fs.String("nsites", "", "variant=n,...")
+	siteFilesArg := fs.String("sitefiles", "", "variant=path of the instrumenter's site table,...")
 	evidence := fs.String("evidence", "", "")
 	replays := fs.String("replays", "", "")
 	knownPath := fs.String("known", "", "")
@@ -80,6 +81,7 @@ func driverMain(args []string) {
 	os.Setenv("VERIF_SCRATCH_DIR", *scratch)
 	bins := parseKV(*binsArg)
 	nsites := parseKV(*sitesArg)
+	siteFiles := parseKV(*siteFilesArg)
 	if *seed == 0 {
 		if *tier == "quick" {
 			*seed = 20260929
@@ -153,6 +155,9 @@ func driverMain(args []string) {
 						"-worker", fmt.Sprint(w), "-workers", fmt.Sprint(*workers), "-out", out, "-variant", variant, "-tier", *tier}
 					if n := nsites[variant]; n != "" {
 						a = append(a, "-nsites", n)
+					}
+					if sf := siteFiles[variant]; sf != "" {
+						a = append(a, "-sitefile", sf)
 					}
 					if variant == "race" || variant == "dense" {
 						a = append(a, "-racelog", out+".racelog")
@@ -290,6 +295,24 @@ func driverMain(args []string) {
 					break
 				}
 			}
+		}
+		flaky := 0
+		if code != 1 && (f.Variant == "race" || f.Variant == "dense") {
+			// Under -race the Go runtime's sync.Pool drops and skips objects at
+			// random (not seedable), so a defect that involves pooled state may
+			// need several fresh processes before it shows again.
+			for attempt := 1; attempt <= 10 && code != 1; attempt++ {
+				code, rout = runReplay(bin, raw, rl, extra)
+				flaky = attempt
+			}
+		}
+		if code == 1 && flaky > 0 {
+			f.Note = fmt.Sprintf("NOT MINIMISED; reproduced in a fresh process only at attempt %d: the scenario involves state that goes through sync.Pool, whose behaviour under the race detector is randomised inside the Go runtime (outside the simulator's control); replay may have to be repeated", flaky+1)
+			writeScenario(final, f)
+			violations++
+			fmt.Printf("violation detail: check=%s variant=%s (flaky replay, see note in file) %s\n", f.Check, f.Variant, trunc(strings.ReplaceAll(rout, "\n", " | "), 1200))
+			fmt.Printf("VIOLATION property=%s replay=%s\n", *prop, final)
+			continue
 		}
 		if code != 1 {
 			unrepro++
